@@ -1,85 +1,115 @@
 ----------------------------- MODULE MpxWinWake -----------------------------
 (***************************************************************************)
-(* The wait of a sender for send window against the arrival of window      *)
+(* The wait of senders for send window against the arrival of window       *)
 (* updates (C07: no interleaving of data and window updates deadlocks).    *)
 (*                                                                         *)
-(* Transcribed from mpx/channel_state.go: decrementSendWindow loads the    *)
-(* window; if it is not enough (window < size and window < initial / 2) it *)
-(* goes to sleep on sendWindowWait, a channel with ONE buffered token;     *)
+(* Transcribed from mpx/channel.go (Send holds the channel's send mutex    *)
+(* from start to end) and mpx/channel_state.go: decrementSendWindow loads  *)
+(* the window; if it is not enough (window < size and window < initial/2)  *)
+(* it goes to sleep on sendWindowWait, a channel with ONE buffered token;  *)
 (* receiveWindow adds the delta and puts the token unless one is there.    *)
 (* Between the load and the sleep (the verif gate "send.wait") an update   *)
-(* may arrive: the buffered token is what keeps it from being lost.        *)
+(* may arrive: the buffered token is what keeps it from being lost.  The   *)
+(* one-token channel serves one waiter: the send mutex sees to it that     *)
+(* there is only one (a second Send on the same channel queues up behind   *)
+(* the first).                                                             *)
 (*                                                                         *)
-(* Observable states of the sender: "idle" (Send not called yet), "gate"   *)
-(* (loaded, window not enough, about to sleep), "asleep", "done".  One     *)
-(* step of the sender runs until the next observable state.                *)
+(* Observable states of a sender: "idle" (Send not called yet), "queued"   *)
+(* (waiting for the send mutex), "gate" (loaded, window not enough, about  *)
+(* to sleep), "asleep", "done".  One step of a sender runs until its next  *)
+(* observable state.  Sender 2 (one byte) calls Send while sender 1 is     *)
+(* inside.                                                                 *)
 (* Buffered = FALSE models a wait channel without the buffer: TLC then     *)
-(* finds the sender asleep with enough window (lost wake-up).              *)
+(* finds a sender asleep with enough window (lost wake-up).                *)
 (***************************************************************************)
 EXTENDS Integers, Sequences, TLC, Json
 
 CONSTANTS W,          \* initial window of the channel
-          Size,       \* size of the message being sent
+          Size,       \* size of the message of sender 1
           Buffered
 
 VARIABLES Deltas,     \* the window updates the peer sends, in order (chosen initially)
+          Two,        \* a second sender takes part (chosen initially)
           window, token, snd, nupd, sched
 
-vars == <<Deltas, window, token, snd, nupd, sched>>
+vars == <<Deltas, Two, window, token, snd, nupd, sched>>
+
+Senders == {1, 2}
+SizeOf(i) == IF i = 1 THEN Size ELSE 1
+Other(i) == 3 - i
 
 \* one update that is enough, one that is not followed by one that is, crumbs, exactly half the window
 DeltaChoices == {<<Size>>, <<1, Size>>, <<1, 1, Size>>, <<W \div 2>>, <<1, (W \div 2) - 1>>, <<W>>, <<1, 1>>}
 
-\* the sender has used the window up before this Send
-Init == Deltas \in DeltaChoices /\ window = 0 /\ token = FALSE /\ snd = "idle" /\ nupd = 0 /\ sched = <<>>
+\* the senders have used the window up before
+Init == /\ Deltas \in DeltaChoices /\ Two \in BOOLEAN /\ window = 0 /\ token = FALSE
+        /\ snd = [i \in Senders |-> "idle"] /\ nupd = 0 /\ sched = <<>>
 
-Enough(w) == w >= Size \/ w >= W \div 2
+Enough(w, i) == w >= SizeOf(i) \/ w >= W \div 2
 
-\* what the sender does after a load: take the window or go to the gate
-Load(w) == IF Enough(w) THEN "done" ELSE "gate"
+Step(who, op) == sched' = Append(sched, [who |-> who, op |-> op, snd1 |-> snd'[1], snd2 |-> snd'[2], window |-> window'])
+                 /\ UNCHANGED <<Deltas, Two>>
 
-Step(who, op) == sched' = Append(sched, [who |-> who, op |-> op, snd |-> snd', window |-> window']) /\ UNCHANGED Deltas
+\* Sender i, holding the send mutex, loads window w: it takes its share and is done - and then the other sender, if it
+\* is queued on the mutex, gets its turn at once - or it goes to the gate.
+RECURSIVE After(_, _, _)
+After(i, w, s) ==
+    IF Enough(w, i)
+    THEN LET w1 == w - SizeOf(i)
+             s1 == [s EXCEPT ![i] = "done"]
+             j == Other(i)
+         IN IF s1[j] = "queued" THEN After(j, w1, s1) ELSE [w |-> w1, s |-> s1]
+    ELSE [w |-> w, s |-> [s EXCEPT ![i] = "gate"]]
 
-\* Send is called
-SStart ==
-    /\ snd = "idle"
-    /\ snd' = Load(window)
-    /\ window' = IF Enough(window) THEN window - Size ELSE window
+Inside(i) == snd[i] \in {"gate", "asleep"}
+
+\* Send is called by sender i
+SStart(i) ==
+    /\ snd[i] = "idle" /\ (i = 2 => (Two /\ snd[1] # "idle"))
+    /\ IF Inside(Other(i))
+       THEN snd' = [snd EXCEPT ![i] = "queued"] /\ UNCHANGED window
+       ELSE LET r == After(i, window, snd) IN snd' = r.s /\ window' = r.w
     /\ UNCHANGED <<token, nupd>>
-    /\ Step("S", "start")
+    /\ Step(i, "start")
 
-\* the sender leaves the gate: with a token waiting it takes it and loads again, otherwise it falls asleep
-SGo ==
-    /\ snd = "gate"
+\* the sender at the gate goes on: with a token waiting it takes it and loads again, otherwise it falls asleep
+SGo(i) ==
+    /\ snd[i] = "gate"
     /\ IF token
-       THEN /\ token' = FALSE /\ snd' = Load(window)
-            /\ window' = IF Enough(window) THEN window - Size ELSE window
-       ELSE /\ snd' = "asleep" /\ UNCHANGED <<token, window>>
+       THEN LET r == After(i, window, snd) IN token' = FALSE /\ snd' = r.s /\ window' = r.w
+       ELSE snd' = [snd EXCEPT ![i] = "asleep"] /\ UNCHANGED <<token, window>>
     /\ UNCHANGED nupd
-    /\ Step("S", "go")
+    /\ Step(i, "go")
 
 \* a window update is applied by the receive loop; a sleeping sender is woken and loads again
 PUpdate ==
     /\ nupd < Len(Deltas)
     /\ nupd' = nupd + 1
-    /\ LET w == window + Deltas[nupd + 1] IN
-       IF snd = "asleep"
-       THEN /\ snd' = Load(w) /\ window' = (IF Enough(w) THEN w - Size ELSE w) /\ token' = FALSE
-       ELSE /\ window' = w /\ UNCHANGED snd
-            /\ token' = (IF Buffered THEN TRUE ELSE token)      \* without the buffer the token is dropped
-    /\ Step("P", "update")
+    /\ LET w == window + Deltas[nupd + 1]
+           sleepers == {i \in Senders : snd[i] = "asleep"}
+       IN IF sleepers # {}
+          THEN LET i == CHOOSE i \in sleepers : TRUE
+                   r == After(i, w, snd)
+               IN snd' = r.s /\ window' = r.w /\ token' = FALSE
+          ELSE /\ window' = w /\ UNCHANGED snd
+               /\ token' = (IF Buffered THEN TRUE ELSE token)      \* without the buffer the token is dropped
+    /\ Step(0, "update")
 
-Next == SStart \/ SGo \/ PUpdate
+Next == (\E i \in Senders : SStart(i) \/ SGo(i)) \/ PUpdate
 
 Spec == Init /\ [][Next]_vars
 
-Done == nupd = Len(Deltas) /\ snd \notin {"idle", "gate"}
+Done == nupd = Len(Deltas) /\ \A i \in Senders : snd[i] \notin {"gate"} /\ (snd[i] = "idle" => (i = 2 /\ ~Two)) /\ (Two => snd[2] # "idle")
 
 \* ------------------------------------------------------------- properties
 \* a sender never sleeps on a window that is enough
-NoLostWakeup == snd = "asleep" => ~Enough(window)
-\* the window never goes below what was granted minus what was sent
-WindowSane == window >= -Size
+NoLostWakeup == \A i \in Senders : snd[i] = "asleep" => ~Enough(window, i)
+\* the one-token wait channel serves one waiter
+OneInside == ~(Inside(1) /\ Inside(2))
+\* nobody stays queued behind a sender that is done
+NoStuckQueue == \A i \in Senders : snd[i] = "queued" => Inside(Other(i))
+WindowSane == window >= -Size - 1
 
-Emit == Done => PrintT(ToJson([w |-> W, size |-> Size, deltas |-> Deltas, sched |-> sched, final |-> snd]))
+Emit == Done => PrintT(ToJson([w |-> W, size |-> Size, deltas |-> Deltas, two |-> Two, sched |-> sched,
+                                 final1 |-> snd[1], final2 |-> snd[2]]))
 =============================================================================
